@@ -38,7 +38,7 @@ m = dict(
     checks=checks,
     notes="See DESIGN.md. ./check <id> decides one property. Genuine defects repaired by unguarded 'fix:' commits in /repo (20) are "
           "listed in /verif/known_findings.json under 'fixed'; recorded defects (KF1-KF18 without the repaired KF9, KF13 and KF15, 'findings') are reported as KNOWN-FINDING "
-          "lines and suppress nothing else. Seeded breaking changes used to test the checks are in /verif/seeded (49) and "
+          "lines and suppress nothing else. Seeded breaking changes used to test the checks are in /verif/seeded (57) and "
           "behaviour-preserving refactorings in /verif/refactors (8); tools/run_seeded.py applies one, runs the checks and reverts.",
     not_applicable=na,
 )
